@@ -74,6 +74,9 @@ def call_frames(rng, mname):
         out.append(({"head": hcls, "flags": "set2", "extra": 1}, head + [("more", True), ("x-unknown", eg.O(("oneway", True)))]))
         out.append(({"head": hcls, "flags": "set0", "extra": 2}, head + [("zz", [1]), ("aa", None)]))
         out.append(({"head": hcls, "flags": "set1", "extra": "escaped_key"}, head + [("oneway", True), ("q\"k", 1)]))
+        # a member with the empty name (a legal JSON member name), before and after a flag
+        out.append(({"head": hcls, "flags": "set1", "extra": "empty_key"}, [("", 0)] + head + [("oneway", True)]))
+        out.append(({"head": hcls, "flags": "set2", "extra": "empty_key"}, head + [("more", True), ("", eg.O(("more", False)))]))
     # member names that are NOT flags (case variants, prefixes / suffixes, one character off, look-alikes):
     # they are ordinary members - unknown ones are passed to the method type, which ignores / keeps /
     # rejects them by its own rules - with boolean and non-boolean values, alone and next to the real flag
